@@ -6,6 +6,8 @@
   real functions by ./check C20).  Series of ANY length; `Sorted` = time-sorted index.
 -/
 import EEM.Model.Window
+import EEM.Gen.WindowStatements
+import EEM.Spec.WindowStatements
 import Mathlib.Data.List.Infix
 import Mathlib.Data.List.TakeWhile
 import Mathlib.Tactic.Linarith
@@ -493,6 +495,34 @@ theorem C20_reporting_errors (a : ReportingArgs) (d : List (Row V)) (e : Err)
     unfold reportingBadArgs at h1
     simp only [Bool.and_eq_true] at h1
     exact ⟨rfl, h1.1, h1.2⟩
+
+/-! ### Tie to the source (T1): the statements of the window functions, regenerated on every run -/
+
+/-- The flattened bodies of `get_baseline_data`, `get_reporting_data` and the two warning builders, re-extracted from the live
+source, are exactly the reviewed ones the hand model was written from (`EEM.Spec.WindowStatements` lists which statement
+corresponds to which definition of the model).  Any change of a slice bound, of the day arithmetic, of a warning guard, of the
+order of emptiness check and blanking, or a new early return changes the regenerated table and breaks this proof. -/
+theorem C20_src_window_statements_are_the_reviewed_ones :
+    EEM.Gen.WindowStatements.functions = EEM.Spec.WindowStatements.reviewed := by
+  decide +kernel
+
+/-- "the input is never modified", at the source: neither window function contains a statement that stores into, deletes from or
+calls an in-place method on its parameter `data`; every selection is taken from a `.copy()` (three per function), and the one
+in-place write — blanking the last row — is on that copy and comes after the emptiness check whose body raises. -/
+theorem C20_src_input_is_never_stored_into :
+    EEM.Gen.WindowStatements.inputStores = []
+    ∧ (∀ c ∈ EEM.Gen.WindowStatements.copies, 1 ≤ c.2)
+    ∧ (∀ b ∈ EEM.Gen.WindowStatements.blankAfterEmptyCheck, b.2 = true)
+    ∧ EEM.Gen.WindowStatements.copies.map (·.1) = ["get_baseline_data", "get_reporting_data"]
+    ∧ EEM.Gen.WindowStatements.blankAfterEmptyCheck.map (·.1) = ["get_baseline_data", "get_reporting_data"] := by
+  decide +kernel
+
+/-- the only assignments of either window function that write into an existing object (target a subscript or an attribute) are
+the blanking of the last selected row -/
+theorem C20_src_only_write_is_the_blanked_row :
+    EEM.Gen.WindowStatements.subscriptWrites
+      = [("get_baseline_data", "baseline_data.iloc[-1] = np.nan"), ("get_reporting_data", "reporting_data.iloc[-1] = np.nan")] := by
+  decide +kernel
 
 /-! ### Non-vacuity -/
 example : getBaselineData (V := Nat) { «end» := some 345600, maxDays := some 2 }
